@@ -377,6 +377,17 @@ def objPut (a : Nat) (name : String) (value : V) (throw : Bool) : M Unit := do
     | some p => do let _ ← defineOwnProperty a name { p with value := value } throw; pure ()
     | none => do let _ ← defineProperty a name (p111 value) throw; pure ()
 
+/-- type_arguments.go:93 argumentsDelete after objectDelete: `if _, exists := get(name); exists { delete(name) }`,
+    i.e. `indexOfParameterName[index] = ""` for a mapped index -/
+def unmapIndex (v : OVal) (name : String) : OVal :=
+  match v with
+  | .arguments ipn stash => (match arrayIndex name with
+    | some index => (match ipn[index]? with
+      | some pn => if pn = "" then v else .arguments (setNth ipn index "") stash
+      | none => v)
+    | none => v)
+  | v => v
+
 /-- objectClass.delete: objectDelete (object_class.go:443), argumentsDelete (type_arguments.go:93) -/
 def objDelete (a : Nat) (name : String) (throw : Bool) : M Bool := do
   let own ← getOwnProperty a name
@@ -389,14 +400,7 @@ def objDelete (a : Nat) (name : String) (throw : Bool) : M Bool := do
       | none => pure true
       | some o =>
         -- object.go:128 deleteProperty; then argumentsDelete un-maps the index
-        let val' : OVal := match o.val with
-          | .arguments ipn stash => (match arrayIndex name with
-            | some index => (match ipn[index]? with
-              | some pn => if pn = "" then o.val else .arguments (setNth ipn index "") stash
-              | none => o.val)
-            | none => o.val)
-          | v => v
-        setObj a { o with props := removeA name o.props, val := val' }
+        setObj a { o with props := removeA name o.props, val := unmapIndex o.val name }
         pure true
     else typeErrorResult throw
 
@@ -801,11 +805,11 @@ def evalE : Nat → FE → M MV
       let callee ← (match f with
         | .var _ => evalE n f
         | _ => do let c ← evalE n f; let v ← resolve c; pure (MV.val v))
+      let vl ← resolve callee                        -- 11.2.3 step 2: GetValue of the callee, before the arguments
       let argumentList ← evalArgs n args
       let this : V := match callee with
-        | .ref (.prop (some b) _) => .ref b          -- :199 this = objectValue(rf.base)
-        | _ => .undef                                -- stashReference, unresolvable reference, plain value
-      let vl ← resolve callee                        -- :231: GetValue of the callee AFTER the arguments
+        | .ref (.prop (some b) _) => .ref b          -- this = objectValue(rf.base)
+        | _ => .undef                                -- stashReference, plain value
       let σ ← getSt
       if !isFunction σ vl then throwErr "TypeError"
       else (match vl with
@@ -813,11 +817,11 @@ def evalE : Nat → FE → M MV
         | _ => throwErr "TypeError")
     | .mcall o p args => do                                                          -- callee = dot expression
       let callee ← evalE n (.get o p)
+      let vl ← resolve callee
       let argumentList ← evalArgs n args
       let this : V := match callee with
         | .ref (.prop (some b) _) => .ref b
         | _ => .undef
-      let vl ← resolve callee
       let σ ← getSt
       if !isFunction σ vl then throwErr "TypeError"
       else (match vl with
@@ -825,8 +829,8 @@ def evalE : Nat → FE → M MV
         | _ => throwErr "TypeError")
     | .new f args => do                                                              -- :267 new expression
       let callee ← evalE n f
+      let vl ← resolve callee                        -- 11.2.2 step 2
       let argumentList ← evalArgs n args
-      let vl ← resolve callee
       let σ ← getSt
       if !isFunction σ vl then throwErr "TypeError"
       else (match vl with
